@@ -1,3 +1,5 @@
+#[cfg(feature = "verif")]
+use crate::verif::shim as tokio;
 use crate::scheduler::queue::Signal;
 use std::sync::Arc;
 use tokio::{runtime::Handle, sync::Mutex, sync::mpsc};
@@ -26,6 +28,11 @@ impl Queue {
     pub(crate) fn send(&self, sig: &Signal) {
         let sender = self.sender.clone();
         let sig = sig.clone();
+        #[cfg(feature = "verif")]
+        match &sig {
+            Signal::Task(task) => crate::verif::note("send", &task.pid, &task.id),
+            Signal::Terminal => crate::verif::note("terminate", "", ""),
+        }
         Handle::current().spawn(async move { sender.send(sig).await });
     }
 
